@@ -131,7 +131,19 @@ func firstLine(s string) string {
 }
 
 func runC09(t *Tape, st *Stats, tier string) *RunResult {
-	sc := GenRevScenario(t, profC09())
+	// the network-facing surfaces: revocation checking (most runs), timestamped
+	// signing against a hostile authority, and the CRL fetcher on its own
+	switch t.Weighted(65, 20, 15) {
+	case 1:
+		return runC09Timestamp(t, st)
+	case 2:
+		return runC09Fetcher(t, st)
+	}
+	prof := profC09()
+	if tier == "thorough" {
+		prof.BigBodyPct *= 3
+	}
+	sc := GenRevScenario(t, prof)
 	rr := &RunResult{}
 	rc := &ruleCtx{props: map[string]bool{"C09": true}, st: st, ante: map[string]bool{}}
 	obs := ExecRev(sc, 0, -1, nil)
@@ -159,6 +171,107 @@ func runC09(t *Tape, st *Stats, tier string) *RunResult {
 	return rr
 }
 
+// runC09Timestamp applies the C09 rules to a timestamped Sign against a
+// hostile authority (and hostile revocation sources of the TSA chain).
+func runC09Timestamp(t *Tape, st *Stats) *RunResult {
+	sc := genC15(t)
+	rr := &RunResult{}
+	obs := execC15(sc)
+	st.Bubbles++
+	if obs.Harness != "" {
+		rr.Harness = obs.Harness
+		return rr
+	}
+	rc := &ruleCtx{props: map[string]bool{"C09": true}, st: st, ante: map[string]bool{}}
+	desc := fmt.Sprintf("timestamped Sign: tsa=%s fault=%s chain_defect=%s", tsaBehaviourNames[sc.Behaviour], sc.Fault, tsaDefectNames[sc.Rev.Worlds[0].TSADefect])
+	rc.anteTrue("C09.R1")
+	st.Probes["c09_surface_timestamped_sign"]++
+	if obs.Panicked {
+		rc.fail("C09.R1", "sign/"+panicSig(obs.PanicVal), fmt.Sprintf("%s: panic reached the caller: %v", desc, obs.PanicVal))
+	}
+	rc.anteTrue("C09.R3")
+	if obs.BubbleErr != "" {
+		rc.fail("C09.R3", "sign/bubble", desc+": bubble ended abnormally: "+firstLine(obs.BubbleErr))
+	} else {
+		tc := time.Time{}
+		switch sc.Cancel {
+		case 1:
+			tc = obs.TStart
+		case 2:
+			tc = obs.TStart.Add(time.Duration(sc.CancelMs)*time.Millisecond + 500*time.Microsecond)
+		}
+		if !tc.IsZero() && !tc.After(obs.TReturn) && obs.X.Rec.Begun && obs.TReturn.After(tc) && sc.Scheme == 0 && !sc.NoTimestamp {
+			rc.fail("C09.R3", "sign/blocked_after_cancel", fmt.Sprintf("%s: the context was cancelled at %s but Sign only returned at %s", desc, rel(tc), rel(obs.TReturn)))
+		}
+	}
+	rc.anteTrue("C09.R4")
+	for _, x := range obs.RevObs.Net.All() {
+		if x.Rec.Unbounded || (x.ReadCap > 0 && x.Rec.BodyRead > x.ReadCap+unboundedSlack) {
+			rc.fail("C09.R4", "unbounded_read/"+x.Kind, fmt.Sprintf("%s: the library consumed %d bytes of a %s body (cap %d)", desc, x.Rec.BodyRead, x.Kind, x.ReadCap))
+		}
+	}
+	if sc.Fault.Kind != 0 && obs.X.Rec.Begun {
+		st.Faults["tsa_"+faultNames[sc.Fault.Kind]]++
+	}
+	st.Behav["tsa_"+tsaBehaviourNames[sc.Behaviour]]++
+	e := "nil"
+	if obs.Err != nil {
+		e = fmt.Sprintf("%T", obs.Err)
+	}
+	rr.Trace = append(revTrace(sc.Rev, obs.RevObs), fmt.Sprintf("t=%s sign.return err=%s bytes=%v panic=%v", rel(obs.TReturn), e, obs.Bytes != nil, obs.Panicked))
+	rr.Scenario = describeC15(sc)
+	rr.Nontrivial = sc.Behaviour > TBGrantedWithMods || sc.Fault.Kind != 0
+	rr.ShapeKey = hashHex([]byte(fmt.Sprintf("ts/%d/%s/%d/%d/%d/%s", sc.Format, sc.KeyKind, sc.Behaviour, sc.Fault.Kind, sc.Rev.Worlds[0].TSADefect, e)))
+	rr.Violations = dedupeViolations(rc.out, "C09")
+	rr.TraceHash = traceHash(rr.Trace)
+	return rr
+}
+
+// runC09Fetcher applies the C09 rules to histories on the CRL fetcher.
+func runC09Fetcher(t *Tape, st *Stats) *RunResult {
+	sc := genC18(t, true)
+	rr := &RunResult{}
+	obs := execC18(sc)
+	st.Bubbles++
+	if obs.Harness != "" || strings.HasPrefix(obs.BubbleErr, "harness:") {
+		rr.Harness = obs.Harness + obs.BubbleErr
+		return rr
+	}
+	rc := &ruleCtx{props: map[string]bool{"C09": true}, st: st, ante: map[string]bool{}}
+	st.Probes["c09_surface_fetcher"]++
+	rc.anteTrue("C09.R1")
+	rc.anteTrue("C09.R3")
+	rc.anteTrue("C09.R4")
+	if obs.BubbleErr != "" {
+		rc.fail("C09.R3", "fetch/bubble", "HTTPFetcher.Fetch: bubble ended abnormally: "+firstLine(obs.BubbleErr))
+	}
+	fired := 0
+	for _, fo := range obs.Fetches {
+		if fo.Panicked {
+			rc.fail("C09.R1", "fetch/"+panicSig(fo.PanicVal), fmt.Sprintf("HTTPFetcher.Fetch (op %d): panic reached the caller: %v", fo.OpIdx, fo.PanicVal))
+		}
+		for _, x := range append([]*Exchange{fo.XBase}, fo.XDelta...) {
+			if x.Rec.Begun && x.Fault.Kind != 0 {
+				st.Faults["fetch_"+faultNames[x.Fault.Kind]]++
+				fired++
+			}
+			if x.Rec.Unbounded || (x.ReadCap > 0 && x.Rec.BodyRead > x.ReadCap+unboundedSlack) {
+				rc.fail("C09.R4", "unbounded_read/"+x.Kind, fmt.Sprintf("HTTPFetcher.Fetch (op %d): consumed %d bytes of a %s body (cap %d)", fo.OpIdx, x.Rec.BodyRead, x.Kind, x.ReadCap))
+			}
+			if x.Rec.CancelledHere && fo.TReturn.After(x.Rec.TClosed) {
+				rc.fail("C09.R3", "fetch/blocked_after_cancel", fmt.Sprintf("HTTPFetcher.Fetch (op %d): the context was cancelled at %s but Fetch only returned at %s", fo.OpIdx, rel(x.Rec.TClosed), rel(fo.TReturn)))
+			}
+		}
+	}
+	rr.Trace = obs.Log
+	rr.Scenario = describeC18(sc)
+	rr.Nontrivial = fired > 0 || sc.FrShape >= FrMalformed
+	rr.ShapeKey = hashHex([]byte("f/" + mustJSON(rr.Scenario)))
+	rr.Violations = dedupeViolations(rc.out, "C09")
+	rr.TraceHash = traceHash(rr.Trace)
+	return rr
+}
+
 func panicSig(v any) string {
 	s := fmt.Sprint(v)
 	if len(s) > 120 {
@@ -180,7 +293,7 @@ func profC17() *RevProfile {
 	p.PSrcFault = 40
 	p.CancelPct = 15
 	p.PanicPct = 15
-	p.Schedules = 6
+	p.Schedules = 4
 	p.LatMax = 400
 	p.MaxCallers = 8
 	p.TimeInvariant = true
@@ -189,8 +302,10 @@ func profC17() *RevProfile {
 
 func runC17(t *Tape, st *Stats, tier string) *RunResult {
 	prof := profC17()
+	prof.Perms = 3
 	if tier == "thorough" {
-		prof.Schedules = 16
+		prof.Schedules = 9
+		prof.Perms = -1 // every permutation of the up to four concurrent checks
 		prof.MaxCallers = 32
 	}
 	sc := GenRevScenario(t, prof)
